@@ -21,6 +21,7 @@ func checkC15(c *chk.Ctx) {
 		"R15a index maintenance: an overwrite removes every index entry of the existing record before the new ones are written; a put writes every declared index entry; delete / delete-with-entry / range delete remove the entries of the record they delete; the apply functions call the callback before the record mutation (shared with C14)",
 		"R15b the key format written, the range-prefix format used by queries and the parsing regular expression are derived from each other (checked on the compile-time constant values)",
 		"R15c a comparison get only returns a record whose index key carries the requested index's prefix; list / range-scan bound their scan inside that prefix",
+		"R15f a range delete runs the per-record callback (which removes the record's index entries) for every key it removes, whichever deletion strategy it picks (shared with C12/C14)",
 		"R15e index entries are only staged for operations the session callback accepted (wrapper order: session first, index only on OK)",
 		"R15d the comparison-type switch of the index get handles every declared comparison type",
 	}
@@ -35,6 +36,7 @@ func checkC15(c *chk.Ctx) {
 	ruleR15d(h)
 	h.Rule("R15e", "K6", "the wrapper callback runs the index callback only after the session callback accepted the operation (no error, status OK) — shared with R14b", 4)
 	ruleWrapperChain(h, "R15e")
+	ruleR12fInto(h, "R15f")
 }
 
 // indexKeyFn: the function building index keys: its result is the key of both a
